@@ -24,7 +24,7 @@ ASSUMPTIONS = ["K tolerance 1e-8 relative (absolute floor scaled by the largest 
 def scenario(ctx, i):
     r = ctx.rng
     C, D = int(r.integers(1, 4 if ctx.tier == "quick" else 6)), int(r.integers(1, 4 if ctx.tier == "quick" else 6))
-    w, m, v, _ = gen.gmm_params(r, C, D, scales=np.ones(D) * 10.0 ** r.choice([-1, 0, 1]))
+    w, m, v, _ = gen.gmm_params(r, C, D, scales=np.ones(D) * 10.0 ** r.choice([-6, -1, 0, 1, 3]))  # the score is a pure number: the unit of the features is arbitrary
     nm = int(r.integers(1, 5))
     nt = int(r.integers(1, 5)) if r.random() < 0.93 else int(r.integers(129, 300))  # a long list of test items: one column each
     models = [m + r.normal(size=m.shape) * np.sqrt(v) * r.choice([0.0, 0.3, 1.0]) for _ in range(nm)]
@@ -45,7 +45,7 @@ def scenario(ctx, i):
         tests[0]["n"] = np.rint(tests[0]["n"])
         tests[0]["px"] = np.rint(tests[0]["px"])
     ok = ["scalar", "shared", "per_test"][int(r.integers(0, 3))]
-    off = 0.0 if ok == "scalar" else (r.normal(size=(C, D)) * np.sqrt(v) * 0.2 if ok == "shared" else np.array([r.normal(size=(C, D)) * np.sqrt(v) * 0.2 for _ in tests]))
+    off = (0.0 if r.random() < 0.4 else float(r.normal() * 0.5 * np.sqrt(np.mean(v)))) if ok == "scalar" else (r.normal(size=(C, D)) * np.sqrt(v) * 0.2 if ok == "shared" else np.array([r.normal(size=(C, D)) * np.sqrt(v) * 0.2 for _ in tests]))
     return dict(C=C, D=D, w=w, m=m, v=v, models=models, models_kind=mk, tests=tests, single=single, off_kind=ok, off=off, norm=bool(r.integers(0, 2)), norm_form=["bool", "bool", "np_bool", "int"][int(r.integers(0, 4))], ubm_is_map=bool(r.random() < 0.3), ubm_warm_start=bool(r.random() < 0.3), int_first=int_first, ubm_reused=bool(r.random() < 0.25))
 
 
@@ -82,6 +82,8 @@ def call_impl(sc):
         sts[0].sum_px = np.asarray(sts[0].sum_px).astype(np.int64)
     st_arg = sts[0] if sc["single"] else sts
     off = sc["off"]
+    if sc["off_kind"] == "scalar":  # one number for every entry (the default is the scalar 0): a float, a NumPy scalar or a 0-d array
+        off = [float, np.float64, np.asarray][int(abs(hash(repr(float(off)))) % 3)](off)
     # the option is a flag: every truthy / falsy spelling a caller may come up with (a NumPy comparison result, 0 / 1) means the same
     flag = {"bool": bool, "np_bool": np.bool_, "int": int}[sc.get("norm_form", "bool")](sc["norm"])
 
